@@ -122,6 +122,83 @@ def check_ws(case):
 
 
 # ---------------------------------------------------------------------------------------------------
+# warm start through the augmented-Lagrangian objective (the objective augmented_lagrange_solve warm-starts)
+# ---------------------------------------------------------------------------------------------------
+
+@st.composite
+def al_ws_cases(draw):
+    from checks import c04_alsolver as c04
+    n, m = c04.COMBOS[draw(st.integers(0, len(c04.COMBOS) - 1))]
+    coef = draw(obj.coefficients(n, family=obj.CONVEX[draw(st.integers(0, 1))], cond_exp=(0.0, 3.0)))
+    cons = []
+    for i in range(m):
+        d = onp.array(draw(st.lists(gen.floats(-1, 1), min_size=n, max_size=n)))
+        if onp.linalg.norm(d) < 1e-2:
+            d = d + 1.0
+        cons.append({'role': ['active', 'inactive', 'active'][draw(st.integers(0, 2))], 'dir': (d / onp.linalg.norm(d)).tolist(),
+                     'off': draw(gen.floats(0.1, 1.0)), 'mult': draw(gen.logfloat(-1, 1))})
+    db = onp.array(draw(st.lists(gen.floats(-1, 1), min_size=n, max_size=n))) * coef['scale'] * draw(gen.logfloat(-2, 0))
+    return {'n': n, 'm': m, 'coef': coef, 'ckind': 'linear', 'cons': cons, 'db': db.tolist(),
+            'x': draw(st.lists(gen.floats(-1, 1), min_size=n, max_size=n)),
+            'lam': [draw(gen.floats(0.0, 2.0)) for _ in range(m)],
+            # penalties as an earlier load step leaves them: grown from the construction value by the growth factor
+            'kgrow': [[1.0, 10.0, 100.0, 1.0][draw(st.integers(0, 3))] for _ in range(m)], 'kexp': draw(st.integers(-1, 1))}
+
+
+def check_al_ws(case):
+    """warm_start_increment on a ConstrainedObjective (current multipliers, penalties possibly grown since construction)
+    against -H^-1 (dg) of the augmented Lagrangian written out by the checker."""
+    import jax
+    import jax.numpy as np
+    from optimism import Objective, WarmStart
+    from checks import c04_alsolver as c04
+    n, m = case['n'], case['m']
+    coef = case['coef']
+    cvec, xu = c04.build_constraints(case)
+    f = obj.make_f(n)
+    cfun = c04.make_c(n, m)
+    o = c04.get_objective(n, m, case['kexp'])
+    o.reset_kappa()
+    kappa = onp.asarray(o.constraintKappa) * onp.array(case['kgrow'])
+    lam = onp.array(case['lam'])
+    o.kappa = np.array(kappa)
+    o.lam = np.array(lam)
+    p_old = Objective.Params(np.array(coef['b']), np.array(cvec), np.array(coef['design']))
+    p_new = Objective.Params(np.array(coef['b']) + np.array(case['db']), np.array(cvec), np.array(coef['design']))
+    x = onp.array(case['x']) + xu
+
+    def AL(z, p):          # the documented augmented Lagrangian, written out independently of ConstrainedObjective
+        c = cfun(z, p)
+        pen = np.where(np.array(lam) >= np.array(kappa) * c, -c * np.array(lam) + 0.5 * np.array(kappa) * c * c,
+                       -0.5 * np.array(lam) ** 2 / np.array(kappa))
+        return f(z, p) + np.sum(pen)
+    H = onp.asarray(jax.hessian(AL)(np.array(x), p_old))
+    w = onp.linalg.eigvalsh(0.5 * (H + H.T))
+    if not (w[0] > 0 and w[-1] / w[0] < 1e8):
+        return Result(inconclusive='hessian-not-spd')
+    g_old = onp.asarray(jax.grad(AL)(np.array(x), p_old))
+    g_new = onp.asarray(jax.grad(AL)(np.array(x), p_new))
+    rhs = g_old - g_new                     # = J_p (p_old - p_new) exactly: the gradient is linear in slot 0
+    o.p = p_old
+    with capture_stdout():
+        o.update_precond(np.array(x))
+        dx = onp.asarray(WarmStart.warm_start_increment(o, np.array(x), p_new, 0))
+    data = dict(kgrow=case['kgrow'], family=coef['family'])
+    if not onp.all(onp.isfinite(dx)):
+        return Result(Failure('finite', 'warm start increment (augmented Lagrangian) not finite', **data), nontrivial=True)
+    fails = []
+    nr = onp.linalg.norm(rhs)
+    res = onp.linalg.norm(H @ dx - rhs)
+    if nr > 0 and res > 2e-5 * nr:
+        fails.append(Failure('al-linear-predictor', 'augmented Lagrangian with penalties %s x construction value: |H dx - dg| = %.3e |dg| (condition %.1e)'
+                             % (case['kgrow'], res / nr, w[-1] / w[0]), **data))
+    cval = onp.asarray(cfun(np.array(x), p_old))
+    quad = bool((lam >= kappa * cval).any())       # a constraint on the quadratic branch of the penalty: kappa enters the Hessian
+    classes = ['kappa-grown' if max(case['kgrow']) > 1 else 'kappa-construction', 'penalty-in-hessian' if quad else 'penalty-flat']
+    return Result(fails, classes=classes, nontrivial=bool(nr > 0 and quad and max(case['kgrow']) > 1))
+
+
+# ---------------------------------------------------------------------------------------------------
 # ScaledObjective
 # ---------------------------------------------------------------------------------------------------
 
@@ -333,7 +410,9 @@ def check_seq(case):
 SUBCHECKS = [
     Sub('warmstart', ws_cases, check_ws, quick=400, thorough=15000, shards_quick=4, shards_thorough=4,
         required=('index0', 'index2', 'pre-exact', 'pre-stale', 'landing')),
+    Sub('al-warmstart', al_ws_cases, check_al_ws, quick=200, thorough=5000, shards_quick=2, shards_thorough=2,
+        required=('kappa-grown', 'penalty-in-hessian')),
     Sub('scaled', scaled_cases, check_scaled, quick=15, thorough=400, shards_quick=4, shards_thorough=6, budget_quick=170),
-    Sub('loadsteps', seq_cases, check_seq, quick=25, thorough=800, shards_quick=8, shards_thorough=6, required=('nes', 'spg', 'warm', 'cold', 'noupd'),
+    Sub('loadsteps', seq_cases, check_seq, quick=25, thorough=800, shards_quick=6, shards_thorough=6, required=('nes', 'spg', 'warm', 'cold', 'noupd'),
         budget_quick=170, timeout=300),
 ]
